@@ -131,13 +131,13 @@ Definition d_sub_spec (hs : bool) (n : nat) (ops : list (@dop Z)) := sub_spec fa
 Definition u_sub_spec (hs : bool) (n : nat) (ops : list (@uop Z)) := sub_spec true hs (gsfinal u_rejected_code uspec_step (s_init n) ops).
 (* ---- C11 / C12 / C19: path searches on the final graph of a history ---- *)
 Definition d_path_case (v : variant) (once : bool) (n : nat) (ops : list (@dop Z)) (s t : nat) :=
-  match gfinal (step false v) (init n) ops with None => [] | Some g => path_case (v_force_checks v) once (path_fuel (adj g) s) (adj g) s t end.
+  match gfinal (step false v) (init n) ops with None => [] | Some g => path_case_x (v_force_checks v) once (path_fuel (adj g) s) (adj g) s t end.
 Definition u_path_case (v : variant) (once : bool) (n : nat) (ops : list (@uop Z)) (s t : nat) :=
-  match gfinal (ustep false v) (init n) ops with None => [] | Some g => path_case (v_force_checks v) once (path_fuel (adj g) s) (adj g) s t end.
+  match gfinal (ustep false v) (init n) ops with None => [] | Some g => path_case_x (v_force_checks v) once (path_fuel (adj g) s) (adj g) s t end.
 Definition d_path_spec (v : variant) (n : nat) (ops : list (@dop Z)) (s t : nat) (im : path_impl) :=
-  match gfinal (step false v) (init n) ops with None => [] | Some g => path_spec (adj g) s t im end.
+  match gfinal (step false v) (init n) ops with None => [] | Some g => path_spec_x (adj g) s t im end.
 Definition u_path_spec (v : variant) (n : nat) (ops : list (@uop Z)) (s t : nat) (im : path_impl) :=
-  match gfinal (ustep false v) (init n) ops with None => [] | Some g => path_spec (adj g) s t im end.
+  match gfinal (ustep false v) (init n) ops with None => [] | Some g => path_spec_x (adj g) s t im end.
 Definition dw_dj_case (v : variant) (n : nat) (ops : list wop) (s : nat) (cs : list nat) :=
   match gfinal (dw_step v) (dm_init n) ops with None => [] | Some m => dj_case (v_force_checks v) (wadj_of (mg m)) s cs end.
 Definition uw_dj_case (v : variant) (n : nat) (ops : list wop) (s : nat) (cs : list nat) :=
